@@ -238,6 +238,51 @@ func trailingCommentsAreSkippedOnlyAfterAMember(c *core.Ctx, p *load.Prog) {
 		return
 	}
 	tobj := info.Defs[target.Name]
+	takesReader := func(call *ast.CallExpr) bool {
+		for _, a := range call.Args {
+			if t := info.TypeOf(a); t != nil && strings.HasSuffix(t.String(), ".tokenReader") {
+				return true
+			}
+		}
+		return false
+	}
+	// e names tokenKindSemicolon, itself or through the initialiser of a
+	// package-level variable it mentions
+	var namesSemicolon func(e ast.Node, depth int) bool
+	namesSemicolon = func(e ast.Node, depth int) bool {
+		found := false
+		ast.Inspect(e, func(n ast.Node) bool {
+			id, ok := n.(*ast.Ident)
+			if !ok || found {
+				return !found
+			}
+			if id.Name == "tokenKindSemicolon" {
+				found = true
+				return false
+			}
+			if v, ok := info.Uses[id].(*types.Var); ok && v.Pkg() == pkg.Types && v.Parent() == pkg.Types.Scope() && depth < 2 {
+				for _, f := range pkg.Syntax {
+					for _, d := range f.Decls {
+						gd, ok := d.(*ast.GenDecl)
+						if !ok {
+							continue
+						}
+						for _, sp := range gd.Specs {
+							if vs, ok := sp.(*ast.ValueSpec); ok {
+								for i, nm := range vs.Names {
+									if info.Defs[nm] == types.Object(v) && i < len(vs.Values) && namesSemicolon(vs.Values[i], depth+1) {
+										found = true
+									}
+								}
+							}
+						}
+					}
+				}
+			}
+			return !found
+		})
+		return found
+	}
 	endsMember := func(st ast.Stmt) bool {
 		found := false
 		ast.Inspect(st, func(n ast.Node) bool {
@@ -250,6 +295,11 @@ func trailingCommentsAreSkippedOnlyAfterAMember(c *core.Ctx, p *load.Prog) {
 							found = true
 						}
 					}
+				}
+				// an expectation built elsewhere and applied here:
+				// fieldNameEnd.read(tr), seq(…, tokenKindSemicolon).check(tr)
+				if takesReader(x) && namesSemicolon(x.Fun, 0) {
+					found = true
 				}
 			case *ast.AssignStmt:
 				for _, l := range x.Lhs {
@@ -266,6 +316,56 @@ func trailingCommentsAreSkippedOnlyAfterAMember(c *core.Ctx, p *load.Prog) {
 			return !found
 		})
 		return found
+	}
+	// functions that may take a newline token: they read tokens and name
+	// tokenKindNewline (optNewline and whatever replaces it)
+	mentionsNewline := func(n ast.Node) bool {
+		found := false
+		ast.Inspect(n, func(k ast.Node) bool {
+			if id, ok := k.(*ast.Ident); ok && id.Name == "tokenKindNewline" {
+				found = true
+			}
+			return !found
+		})
+		return found
+	}
+	readsTokens := func(n ast.Node) bool {
+		found := false
+		ast.Inspect(n, func(k ast.Node) bool {
+			if call, ok := k.(*ast.CallExpr); ok && (isMethodCall(call, "", "Next") || isMethodCall(call, "", "next")) {
+				found = true
+			}
+			return !found
+		})
+		return found
+	}
+	newlineTakers := map[types.Object]bool{}
+	for _, f := range pkg.Syntax {
+		for _, d := range f.Decls {
+			if fd, ok := d.(*ast.FuncDecl); ok && fd.Body != nil && fd != target && mentionsNewline(fd.Body) && readsTokens(fd.Body) {
+				newlineTakers[info.Defs[fd.Name]] = true
+			}
+		}
+	}
+	takesNewline := func(st ast.Stmt) ast.Node {
+		var hit ast.Node
+		ast.Inspect(st, func(k ast.Node) bool {
+			if hit != nil {
+				return false
+			}
+			switch x := k.(type) {
+			case *ast.CallExpr:
+				if cal := load.Callee(info, x); cal != nil && newlineTakers[types.Object(cal)] {
+					hit = x
+				}
+			case *ast.Ident:
+				if x.Name == "tokenKindNewline" {
+					hit = x
+				}
+			}
+			return hit == nil
+		})
+		return hit
 	}
 	n := 0
 	for _, fd := range funcsOfFiles(p, pkg, "parse.go", "parse_expr.go") {
@@ -307,6 +407,27 @@ func trailingCommentsAreSkippedOnlyAfterAMember(c *core.Ctx, p *load.Prog) {
 						ok2 = true
 						break
 					}
+				}
+				// R14b: the line the member ended on is still the current line:
+				// nothing between the member's end and this call takes the
+				// newline. With the newline gone, the comment skipped is the one
+				// on the following line — the doc comment of what comes next.
+				if ok2 {
+					var eaten ast.Node
+					for j := i - 1; j >= 0 && eaten == nil; j-- {
+						if n := takesNewline(list[j]); n != nil {
+							eaten = n
+						}
+						if endsMember(list[j]) {
+							break
+						}
+					}
+					where := p.Pos(call.Pos())
+					if eaten != nil {
+						where = p.Pos(eaten.Pos())
+					}
+					c.Check("R14b", fmt.Sprintf("%s skips the trailing comment before the line's newline is taken (#%d)", fd.Name.Name, n), where, eaten == nil,
+						"a newline is consumed between the end of the member and skipEndOfLineComments: the comment then skipped is the one on the next line, which is the doc comment of the definition or member that follows, and whether it is lost depends on a blank line")
 				}
 				c.Check("R14", fmt.Sprintf("%s skips a trailing comment only after a member is complete (#%d)", fd.Name.Name, n), p.Pos(call.Pos()), ok2,
 					"skipEndOfLineComments is called where no member or const has just been completed (no `;` taken and nothing stored before it in this statement list): the comment on the rest of the line — and a //[tag(...)] in it — belongs to what follows and is thrown away")
